@@ -334,6 +334,34 @@ class C08(Check):
                             break
                 except Exception as exc:
                     R.violation(f'chi2/{path}/exception', d, repr(exc))
+            # -- the same inputs in other legal forms: integer-typed coordinate arrays at construction (then a
+            #    non-integer configuration is evaluated), and a restraint list given as an integer ndarray that the
+            #    caller re-uses (overwrites) after the calculator has been built
+            if only in (None, 'forms') and (c, e) == combos[0]:
+                d = dict(base, sub='forms')
+                try:
+                    fi = np.round(fixed * 1000).astype(np.int64)
+                    mi = np.round(mc * 1000).astype(np.int64)
+                    cfg = me * 1000.0
+                    got = float(Chi2Calculator(fi, mi, [list(r) for r in restr])(cfg.copy()))
+                    a, b, kk, _ = ref_parts(fi.astype(float), cfg, restr)
+                    w = (a + b) * 1.1 ** kk
+                    R.case(dict(d, form='int-coordinates'), nontrivial=True, cls=tag + '/int-coordinates')
+                    if not (rel_diff(got, w) <= 1e-9):
+                        R.violation(f'chi2/{path}/integer-coordinates-at-construction/differs-from-reference', d,
+                                    f'{got!r} vs {w!r}')
+                    if restr:
+                        arr = np.array(restr, dtype=int)
+                        calc = Chi2Calculator(fixed.copy(), mc.copy(), arr)
+                        arr[:, 1] = (arr[:, 1] + 1) % n2          # the caller relabels ITS array for the next molecule
+                        arr[:, 0] = arr[::-1, 0]
+                        got = float(calc(me.copy()))
+                        R.case(dict(d, form='restraints-ndarray-reused'), nontrivial=True, cls=tag + '/restraints-ndarray')
+                        if not (rel_diff(got, want) <= TOL_REF):
+                            R.violation(f'chi2/{path}/restraint-array-reused-by-caller/differs-from-reference', d,
+                                        f'{got!r} vs {want!r}')
+                except Exception as exc:
+                    R.violation(f'chi2/{path}/exception', d, repr(exc))
             # -- consistent relabelling of atoms and restraints ---------------------
             if only in (None, 'perm'):
                 plist = [case['perm']] if 'perm' in case else perms
